@@ -281,6 +281,12 @@ func optResolution(e *Env, dir string) (cases []string) {
 					case <-time.After(5 * time.Second):
 						e.fail("C12-ends-disagree", fmt.Sprintf("options %+v: a call between a client and a server built from the same Options hangs", s), nil)
 					}
+					// both ends must have picked the same kind of component (named or constructor function) for each slot
+					for _, slot := range []string{"sock", "body", "header"} {
+						if clog.get(slot) != slog.get(slot) {
+							e.fail("C12-ends-resolve-differently", fmt.Sprintf("options %+v: DialWithOptions chose %s for the %s, ListenWithOptions chose %s", s, clog.get(slot), slot, slog.get(slot)), map[string]interface{}{"options": fmt.Sprintf("%+v", s)})
+						}
+					}
 					conn.Close()
 					srv.Close()
 					select {
